@@ -27,6 +27,19 @@ def nul_program(rng):
     return {'csize': 256, 'caseins': False, 'scs': [], 'rules': rules}
 
 
+def nul_last_class_program(rng, k):
+    """NUL shares the LAST equivalence class with the bytes no rule singles out (here 0x80-0xff): the low bytes are all
+    named by a range starting at \\x01, k letters get classes of their own, so that the number of classes sweeps over the
+    powers of two as k varies (a full table has a separate yy_NUL_trans only if NUL is alone in the last class)."""
+    letters = rng.shuffle(list(range(97, 123)))[:k]
+    rules = [{'head': ('c', c), 'bol': False, 'scs': None, 'trail': None} for c in letters]
+    rules.append({'head': ('plus', ('cls', ('set', False, [('rg', 97, 122)]))), 'bol': False, 'scs': None, 'trail': None})
+    rules.append({'head': ('cls', ('set', False, [('rg', 1, rng.pick([127, 127, 100, 200]))])), 'bol': False, 'scs': None, 'trail': None})
+    if rng.chance(50):
+        rules.append({'head': ('alt', ('any',), ('c', 10)), 'bol': False, 'scs': None, 'trail': None})
+    return {'csize': 256, 'caseins': False, 'scs': [], 'rules': rules}
+
+
 def nul_template_program(rng):
     """Loops over wide classes that contain NUL next to rules with negated classes: with meta-equivalence classes but
     no equivalence classes (-Cm) NUL is class 256 and has to find its way into the templates of the compressed table."""
@@ -92,9 +105,17 @@ def build_cases(rng, tier):
         if i % 4 == 3:
             prog = nul_template_program(r)
             opts = list(r.pick([["-Cm"], ["-Cm"], ["-Cam"], ["-Cm", "-B"], ["-Cm", "-I"], ["-Cem"], ["-C"]]))
+        lastclass = i % 8 == 5
+        if lastclass:
+            prog = nul_last_class_program(r, (i // 8) % 16)
+            opts = list(r.pick([["-Cfe"], ["-Cfe"], ["-Cfae"], ["-CFe"], ["-Ce"], ["-Cem"]]))
+            if be == 'cxx' and any("F" in o for o in opts):
+                opts = ["-Cfe"]
         c = engine.make_case("n%d" % i, r, prog=prog, flex_opts=opts + ["-8"], backend=be,
                              extra_options=(["array"] if r.chance(20) else []))
         c['inputs'] = nul_inputs(prog, r.fork("in"), 4)
+        if lastclass:
+            c['inputs'].append([97, 98, 192, 99, 100, 10, 233, 10, 192, 193, 120, 0, 200, 0, 0, 255, 10])
         if be != 'c99':
             c['cc_extra'] = r.pick([[], ["-DYY_BUF_SIZE=8"], ["-DYY_BUF_SIZE=3"], ["-DYY_BUF_SIZE=16"], ["-DYY_BUF_SIZE=1"]])
         cases.append(c)
